@@ -383,7 +383,7 @@ class Checker:
         self.ctx = ctx
         self.stats = {
             "evaluations": 0, "cases": 0, "nontrivial": set(), "n": {}, "kappa": {}, "k": {}, "columns": {}, "pkind": {},
-            "field": {}, "x0kind": {}, "stop": {}, "spec": {}, "tol": {}, "knife_edge": 0, "via_inv": 0, "oracle_checked": 0,
+            "field": {}, "x0kind": {}, "colnorm": {}, "stop": {}, "spec": {}, "tol": {}, "knife_edge": 0, "via_inv": 0, "oracle_checked": 0,
             "oracle_skipped": 0, "scale_checked": 0, "zero_cols": 0, "branches": {}, "worst_x": 0.0, "worst_oracle": 0.0,
             "worst_x_ratio": 0.0, "worst_oracle_ratio": 0.0, "iter_compared": 0, "iter_loose": 0, "samples": [],
         }
@@ -607,6 +607,9 @@ class Checker:
         if steps == 0 and K > 0:
             self.bump("stop", "initial residual below tolerance")
         st["zero_cols"] += len(c["zero_cols"])
+        for j in range(R.m):
+            nb = float(np.linalg.norm(R.B[:, j]))
+            self.bump("colnorm", "zero" if nb == 0 else ("1e-140..1e-45" if nb < 1e-40 else "1e%+03d" % (3 * math.floor(math.log10(nb) / 3))))
         for bname, v in (L["branches"] or {}).items():
             if v:
                 self.bump("branches", bname, v)
@@ -791,7 +794,7 @@ def run(ctx):
         "zero_columns": st["zero_cols"], "via_inv": st["via_inv"],
         "dist_n": st["n"], "dist_kappa": st["kappa"], "dist_steps_k": st["k"], "dist_columns": st["columns"],
         "dist_preconditioner": st["pkind"], "dist_field": st["field"], "dist_x0": st["x0kind"], "dist_spectrum": st["spec"],
-        "dist_tol": st["tol"], "stop_reasons": st["stop"], "model_branches_hit": st["branches"],
+        "dist_tol": st["tol"], "dist_column_norm": st["colnorm"], "stop_reasons": st["stop"], "model_branches_hit": st["branches"],
         "samples": st["samples"], "lean_driver_wall_s": round(t_lean, 1),
         "real_violations": n_real_viol, "correspondence_disagreements": n_corr,
         "observations": {"tiny_rhs_norms (stream covers 1e-140..1e6; fixed probe)": tiny},
